@@ -316,6 +316,15 @@ func HandleLsub(deps ServerDeps, conn net.Conn, tag string, parts []string, stat
 
 // ===== CREATE =====
 
+// roleMailboxPathPrefix is the prefix of the names under which role mailboxes are addressed ("Roles/<address>/<mailbox>")
+const roleMailboxPathPrefix = "Roles/"
+
+// isRoleMailboxPath reports whether a name lies in the part of the hierarchy reserved for role mailboxes: the
+// folder "Roles" itself (a mailbox renamed to it would take its children below it) and everything under it
+func isRoleMailboxPath(name string) bool {
+	return name+"/" == roleMailboxPathPrefix || strings.HasPrefix(name, roleMailboxPathPrefix)
+}
+
 func HandleCreate(deps ServerDeps, conn net.Conn, tag string, parts []string, state *models.ClientState) {
 	if !state.Authenticated {
 		deps.SendResponse(conn, fmt.Sprintf("%s NO Please authenticate first", tag))
@@ -343,6 +352,13 @@ func HandleCreate(deps ServerDeps, conn net.Conn, tag string, parts []string, st
 	// Check if trying to create INBOX (case-insensitive)
 	if strings.ToUpper(mailboxName) == "INBOX" {
 		deps.SendResponse(conn, fmt.Sprintf("%s NO Cannot create INBOX - it already exists", tag))
+		return
+	}
+
+	// "Roles/" is the path prefix under which SELECT and EXAMINE address role mailboxes: a personal mailbox
+	// created below it would be listed but could never be selected
+	if isRoleMailboxPath(mailboxName) {
+		deps.SendResponse(conn, fmt.Sprintf("%s NO [CANNOT] Names under %s are reserved for role mailboxes", tag, roleMailboxPathPrefix))
 		return
 	}
 
@@ -484,6 +500,12 @@ func HandleRename(deps ServerDeps, conn net.Conn, tag string, parts []string, st
 	// Validate mailbox names
 	if oldName == "" || newName == "" {
 		deps.SendResponse(conn, fmt.Sprintf("%s BAD Invalid mailbox names", tag))
+		return
+	}
+
+	// A mailbox cannot be moved below "Roles/" either (see HandleCreate)
+	if isRoleMailboxPath(strings.TrimSuffix(newName, "/")) {
+		deps.SendResponse(conn, fmt.Sprintf("%s NO [CANNOT] Names under %s are reserved for role mailboxes", tag, roleMailboxPathPrefix))
 		return
 	}
 
